@@ -30,6 +30,15 @@ Proof.
   inversion H; subst. apply insert_sorted_NoDup; auto. now rewrite isort_In.
 Qed.
 
+Lemma NoDup_app_snoc {A} (l : list A) x : NoDup l -> ~ In x l -> NoDup (l ++ [x]).
+Proof.
+  induction l as [|y r IH]; simpl; intros Hnd Hx.
+  - constructor; auto.
+  - inversion Hnd; subst. constructor.
+    + rewrite in_app_iff. simpl. intuition.
+    + apply IH; auto.
+Qed.
+
 (* ---------- fields of the building state ---------- *)
 Definition fP (st : bstate) (a : Z) := b_parent (getb st a).
 Definition fR (st : bstate) (a : Z) := b_root (getb st a).
@@ -122,6 +131,111 @@ Lemma mono_parent st0 st : mono st0 st ->
 Proof.
   intros [H _] a p Hp. assert (Hd : disc st0 a) by (left; congruence).
   destruct (H a Hd) as [H1 _]. congruence.
+Qed.
+
+(* ---------- what handle computes, case by case ---------- *)
+Definition nondisc_state (st : bstate) (s n : Z) : bstate :=
+  let st1 := setb st n (add_visited (getb st n) s) in
+  setb st1 n (add_pc (getb st1 n) s).
+
+Lemma handle_nondisc f st s n token :
+  disc st n -> ~ In s (fCh st n) ->
+  handle (S f) st (Some s) n token = Some (nondisc_state st s n).
+Proof.
+  intros Hd Hc. unfold nondisc_state. simpl.
+  rewrite !getb_setb_same. simpl.
+  assert (Hz : zmem s (b_children (getb st n)) = false).
+  { destruct (zmem s (b_children (getb st n))) eqn:Ez; auto. apply zmem_In in Ez. contradiction. }
+  rewrite Hz. destruct (b_parent (getb st n)) eqn:Ep; auto.
+  destruct (b_root (getb st n)) eqn:Er; auto.
+  exfalso. destruct Hd as [H|H]; unfold fP, fR in H; congruence.
+Qed.
+
+Lemma nondisc_state_other st s n a : a <> n -> getb (nondisc_state st s n) a = getb st a.
+Proof. intros H. unfold nondisc_state. now rewrite !getb_setb_other. Qed.
+
+Lemma nondisc_state_same st s n :
+  getb (nondisc_state st s n) n = add_pc (add_visited (getb st n) s) s.
+Proof. unfold nondisc_state. now rewrite !getb_setb_same. Qed.
+
+Definition disc_state (st : bstate) (s x : Z) (token : list Z) : bstate :=
+  let st1 := setb st x (add_visited (getb st x) s) in
+  let b := getb st1 x in
+  let pps := filter (fun n => zmem n token && negb (Z.eqb n s)) (b_neighbors b) in
+  let st2 := setb st1 x (set_parent b s pps) in
+  resort (resort st2 x token) x (token ++ [x]).
+
+Lemma handle_disc f st s x token :
+  white st x ->
+  handle (S f) st (Some s) x token =
+  prop_loop (fun st n => handle f st (Some x) n (token ++ [x])) x
+    (b_neighbors (getb (disc_state st s x token) x)) (disc_state st s x token).
+Proof.
+  intros [Hp Hr]. unfold fP, fR in *. unfold disc_state. simpl.
+  rewrite !getb_setb_same. simpl. rewrite Hp, Hr. reflexivity.
+Qed.
+
+Lemma resort_other st x token a : a <> x -> getb (resort st x token) a = getb st a.
+Proof. intros H. unfold resort. now rewrite getb_setb_other. Qed.
+
+Lemma resort_same st x token :
+  exists l, (forall y, In y l <-> In y (b_neighbors (getb st x))) /\
+            (NoDup (b_neighbors (getb st x)) -> NoDup l) /\
+            getb (resort st x token) x = set_neighbors (getb st x) l.
+Proof.
+  unfold resort. rewrite getb_setb_same. eexists. split; [|split; [|reflexivity]].
+  - intros y. unfold sort_neighbors. apply isort_In.
+  - unfold sort_neighbors. apply isort_NoDup.
+Qed.
+
+Lemma disc_state_other st s x token a : a <> x -> getb (disc_state st s x token) a = getb st a.
+Proof.
+  intros H. unfold disc_state. cbv zeta. rewrite !resort_other by auto.
+  now rewrite !getb_setb_other by auto.
+Qed.
+
+Lemma disc_state_same st s x token :
+  let b0 := getb st x in
+  exists l, (forall y, In y l <-> In y (b_neighbors b0)) /\
+            (NoDup (b_neighbors b0) -> NoDup l) /\
+            getb (disc_state st s x token) x =
+            mkB l (Some s) (filter (fun n => zmem n token && negb (Z.eqb n s)) (b_neighbors b0))
+                (b_pcs b0) (b_children b0) (b_visited b0 ++ [s]) (b_root b0).
+Proof.
+  intros b0. unfold disc_state. cbv zeta.
+  match goal with |- context [resort (resort ?S x token) x (token ++ [x])] => set (st2 := S) end.
+  destruct (resort_same st2 x token) as [l1 [A1 [A2 A3]]].
+  destruct (resort_same (resort st2 x token) x (token ++ [x])) as [l2 [B1 [B2 B3]]].
+  exists l2. rewrite B3, A3 in *. simpl in *.
+  assert (E2 : getb st2 x = set_parent (add_visited b0 s) s
+            (filter (fun n => zmem n token && negb (Z.eqb n s)) (b_neighbors b0))).
+  { unfold st2. rewrite !getb_setb_same. reflexivity. }
+  rewrite E2 in *. simpl in *. split; [|split].
+  - intros y. rewrite B1. apply A1.
+  - intros H. apply B2. apply A2. exact H.
+  - reflexivity.
+Qed.
+
+Definition root_state (st : bstate) (x : Z) : bstate :=
+  resort (setb st x (set_root (getb st x))) x ([] ++ [x]).
+
+Lemma handle_root f st x :
+  handle (S f) st None x [] =
+  prop_loop (fun st n => handle f st (Some x) n ([] ++ [x])) x
+    (b_neighbors (getb (root_state st x) x)) (root_state st x).
+Proof. reflexivity. Qed.
+
+Lemma root_state_other st x a : a <> x -> getb (root_state st x) a = getb st a.
+Proof. intros H. unfold root_state. rewrite resort_other by auto. now rewrite getb_setb_other. Qed.
+
+Lemma root_state_same st x :
+  exists l, (forall y, In y l <-> In y (b_neighbors (getb st x))) /\
+            (NoDup (b_neighbors (getb st x)) -> NoDup l) /\
+            getb (root_state st x) x = set_neighbors (set_root (getb st x)) l.
+Proof.
+  unfold root_state.
+  destruct (resort_same (setb st x (set_root (getb st x))) x ([] ++ [x])) as [l [A1 [A2 A3]]].
+  rewrite getb_setb_same in *. simpl in *. exists l. auto.
 Qed.
 
 Section DFS.
@@ -219,5 +333,478 @@ Section DFS.
     - destruct (g_ranked _ HG) as [d Hd]. exists d. intros a p. rewrite EP. apply Hd.
     - intros a p. rewrite EP, EPp. apply (g_par_pp _ HG).
     - intros a. rewrite ER, EP. apply (g_root _ HG).
+  Qed.
+  (* ---------- step 2: a white node x is discovered from s (s has already appended x to
+     its children): parent, pseudo-parents, first received token ---------- *)
+  Lemma G_discover st st4 s x token :
+    G st -> white st x -> disc st s ->
+    (forall y, In y token -> y = s \/ banc st y s) ->
+    (forall a, a <> s -> a <> x -> getb st4 a = getb st a) ->
+    getb st4 s = add_child (getb st s) x ->
+    (forall y, In y (fNb st4 x) <-> In y (nb x)) -> NoDup (fNb st4 x) ->
+    fP st4 x = Some s -> fR st4 x = false -> fCh st4 x = [] -> fPc st4 x = [] ->
+    fVi st4 x = [s] ->
+    (forall n, In n (fPp st4 x) <-> In n token /\ n <> s /\ In n (nb x)) ->
+    NoDup (fPp st4 x) ->
+    G st4.
+  Proof.
+    intros HG Hw Hds Htok Ho Hs HNb HNbnd HP HR HCh HPc HVi HPp HPpnd.
+    assert (Hsx : s <> x) by (intros ->; eapply white_not_disc; eauto).
+    assert (EO : forall a, a <> x ->
+      fP st4 a = fP st a /\ fR st4 a = fR st a /\ fPp st4 a = fPp st a /\ fPc st4 a = fPc st a /\
+      fVi st4 a = fVi st a /\ fNb st4 a = fNb st a /\
+      fCh st4 a = if Z.eq_dec a s then fCh st s ++ [x] else fCh st a).
+    { intros a Ha. unfold fP, fR, fPp, fPc, fVi, fNb, fCh.
+      destruct (Z.eq_dec a s) as [->|Hne]; [rewrite Hs|rewrite Ho by auto]; simpl; repeat split; auto. }
+    assert (ED1 : forall a, disc st a -> disc st4 a).
+    { intros a Hd. assert (a <> x) by (intros ->; eapply white_not_disc; eauto).
+      destruct (EO a H) as [E1 [E2 _]]. unfold disc. now rewrite E1, E2. }
+    assert (ED2 : forall a, disc st4 a -> a = x \/ disc st a).
+    { intros a Hd. destruct (Z.eq_dec a x) as [->|Hne]; auto. right.
+      destruct (EO a Hne) as [E1 [E2 _]]. unfold disc in *. now rewrite <- E1, <- E2. }
+    assert (Hdx : disc st4 x) by (left; congruence).
+    assert (EB : forall a b, banc st a b -> banc st4 a b).
+    { apply banc_mono. intros a p Hp. assert (a <> x) by (intros ->; destruct Hw; congruence).
+      destruct (EO a H) as [E1 _]. congruence. }
+    assert (Hvd : forall a b, In a (fVi st b) -> a <> x /\ b <> x).
+    { intros a b H. apply (g_vi_disc _ HG) in H as [H1 H2].
+      split; intros ->; eapply white_not_disc; eauto. }
+    constructor.
+    - intros a y. destruct (Z.eq_dec a x) as [->|Hne]; auto.
+      destruct (EO a Hne) as [_ [_ [_ [_ [_ [E _]]]]]]. rewrite E. apply (g_nb _ HG).
+    - intros a. destruct (Z.eq_dec a x) as [->|Hne]; auto.
+      destruct (EO a Hne) as [_ [_ [_ [_ [_ [E _]]]]]]. rewrite E. apply (g_nb_nd _ HG).
+    - intros a Haw. assert (Hne : a <> x) by (intros ->; eapply white_not_disc; eauto).
+      destruct (EO a Hne) as [E1 [E2 [E3 [E4 [E5 [E6 E7]]]]]].
+      assert (Hw0 : white st a) by (unfold white in *; now rewrite <- E1, <- E2).
+      destruct (Z.eq_dec a s) as [->|Hns]; [exfalso; eapply white_not_disc; eauto|].
+      rewrite E3, E4, E5, E7. apply (g_white _ HG); auto.
+    - intros a b Hin. destruct (Z.eq_dec b x) as [->|Hne].
+      + rewrite HVi in Hin. destruct Hin as [<-|[]]. auto.
+      + destruct (EO b Hne) as [_ [_ [_ [_ [E5 _]]]]]. rewrite E5 in Hin.
+        apply (g_vi_disc _ HG) in Hin as [H1 H2]. auto.
+    - intros a p Hp. destruct (Z.eq_dec a x) as [->|Hne].
+      + rewrite HP in Hp. inversion Hp; subst. auto.
+      + destruct (EO a Hne) as [E1 _]. rewrite E1 in Hp. apply ED1. apply (g_par_disc _ HG) in Hp; auto.
+    - intros a b Hin. destruct (Z.eq_dec b x) as [->|Hne].
+      + rewrite HVi in Hin. destruct Hin as [<-|[]]. auto.
+      + destruct (EO b Hne) as [E1 [_ [_ [E4 [E5 _]]]]]. rewrite E5 in Hin. rewrite E1, E4.
+        apply (g_vi _ HG); auto.
+    - intros a b Hin. destruct (Z.eq_dec b x) as [->|Hne].
+      + rewrite HPc in Hin. destruct Hin.
+      + destruct (EO b Hne) as [_ [_ [_ [E4 _]]]]. rewrite E4 in Hin.
+        assert (Ha : a <> x) by (apply (g_pc_vi _ HG) in Hin; apply Hvd in Hin; tauto).
+        destruct (EO a Ha) as [_ [_ [E3 _]]]. rewrite E3. apply (g_pc_pp _ HG); auto.
+    - intros a p. destruct (Z.eq_dec p x) as [->|Hpx].
+      + rewrite HCh. split; [intros []|]. intros Hp. exfalso.
+        destruct (Z.eq_dec a x) as [->|Hne]; [congruence|].
+        destruct (EO a Hne) as [E1 _]. rewrite E1 in Hp.
+        apply (g_par_disc _ HG) in Hp. eapply white_not_disc; eauto.
+      + destruct (EO p Hpx) as [_ [_ [_ [_ [_ [_ E7]]]]]]. rewrite E7.
+        destruct (Z.eq_dec a x) as [->|Hne].
+        * rewrite HP. destruct (Z.eq_dec p s) as [->|Hps].
+          -- split; auto. intros _. apply in_app_iff. right. now left.
+          -- split; [|intros H; congruence]. intros H. apply (g_ch _ HG) in H.
+             destruct Hw; congruence.
+        * destruct (EO a Hne) as [E1 _]. rewrite E1.
+          destruct (Z.eq_dec p s) as [->|Hps]; [|apply (g_ch _ HG)].
+          rewrite in_app_iff, (g_ch _ HG). simpl.
+          split; [intros [H|[H|[]]]; [auto|congruence]|auto].
+    - intros a p Hp. destruct (Z.eq_dec a x) as [->|Hne].
+      + rewrite HP in Hp. inversion Hp; subst. rewrite HVi. now left.
+      + destruct (EO a Hne) as [E1 [_ [_ [_ [E5 _]]]]]. rewrite E1 in Hp. rewrite E5.
+        apply (g_par_vi _ HG); auto.
+    - intros a. destruct (Z.eq_dec a x) as [->|Hne]; [rewrite HCh; constructor|].
+      destruct (EO a Hne) as [_ [_ [_ [_ [_ [_ E7]]]]]]. rewrite E7.
+      destruct (Z.eq_dec a s) as [->|Hns]; [|apply (g_nd_ch _ HG)].
+      apply NoDup_app_snoc; [apply (g_nd_ch _ HG)|]. intros H. apply (g_ch _ HG) in H.
+      destruct Hw; congruence.
+    - intros a. destruct (Z.eq_dec a x) as [->|Hne]; auto.
+      destruct (EO a Hne) as [_ [_ [E3 _]]]. rewrite E3. apply (g_nd_pp _ HG).
+    - intros a. destruct (Z.eq_dec a x) as [->|Hne]; [rewrite HPc; constructor|].
+      destruct (EO a Hne) as [_ [_ [_ [E4 _]]]]. rewrite E4. apply (g_nd_pc _ HG).
+    - intros a b Hin. destruct (Z.eq_dec b x) as [->|Hne].
+      + rewrite HPc in Hin. destruct Hin.
+      + destruct (EO b Hne) as [_ [_ [_ [E4 [E5 _]]]]]. rewrite E4 in Hin. rewrite E5.
+        apply (g_pc_vi _ HG); auto.
+    - intros a b Hin. destruct (Z.eq_dec a x) as [->|Hne].
+      + apply HPp in Hin as [H1 [H2 H3]]. destruct (Htok b H1) as [->|Hb]; [congruence|].
+        eapply banc_up; [exact HP|]. apply EB; auto.
+      + destruct (EO a Hne) as [_ [_ [E3 _]]]. rewrite E3 in Hin. apply EB.
+        apply (g_pp_anc _ HG); auto.
+    - destruct (g_ranked _ HG) as [d Hd].
+      exists (fun a => if Z.eq_dec a x then S (d s) else d a).
+      intros a p Hp. destruct (Z.eq_dec a x) as [->|Hne].
+      + rewrite HP in Hp. inversion Hp; subst. destruct (Z.eq_dec p x); [congruence|]. reflexivity.
+      + destruct (EO a Hne) as [E1 _]. rewrite E1 in Hp.
+        destruct (Z.eq_dec p x) as [->|Hpx]; [|auto].
+        apply (g_par_disc _ HG) in Hp. exfalso. eapply white_not_disc; eauto.
+    - intros a p Hp. destruct (Z.eq_dec a x) as [->|Hne].
+      + rewrite HP in Hp. inversion Hp; subst. intros H. apply HPp in H. tauto.
+      + destruct (EO a Hne) as [E1 [_ [E3 _]]]. rewrite E1 in Hp. rewrite E3.
+        apply (g_par_pp _ HG); auto.
+    - intros a Ha. destruct (Z.eq_dec a x) as [->|Hne]; [congruence|].
+      destruct (EO a Hne) as [E1 [E2 _]]. rewrite E2 in Ha. rewrite E1. apply (g_root _ HG); auto.
+  Qed.
+
+  (* ---------- step 0: the root receives the token from nobody ---------- *)
+  Lemma G_setroot st st1 :
+    G st -> white st root ->
+    (forall a, a <> root -> getb st1 a = getb st a) ->
+    (forall y, In y (fNb st1 root) <-> In y (nb root)) -> NoDup (fNb st1 root) ->
+    fP st1 root = None -> fR st1 root = true -> fCh st1 root = [] -> fPc st1 root = [] ->
+    fVi st1 root = [] -> fPp st1 root = [] ->
+    G st1.
+  Proof.
+    intros HG Hw Ho HNb HNbnd HP HR HCh HPc HVi HPp.
+    destruct (g_white _ HG _ Hw) as [W1 [W2 [W3 W4]]].
+    assert (EP : forall a, fP st1 a = fP st a).
+    { intros a. destruct (Z.eq_dec a root) as [->|Hne]; [destruct Hw; congruence|].
+      unfold fP. now rewrite Ho. }
+    assert (ECh : forall a, fCh st1 a = fCh st a).
+    { intros a. destruct (Z.eq_dec a root) as [->|Hne]; [congruence|]. unfold fCh. now rewrite Ho. }
+    assert (EPp : forall a, fPp st1 a = fPp st a).
+    { intros a. destruct (Z.eq_dec a root) as [->|Hne]; [congruence|]. unfold fPp. now rewrite Ho. }
+    assert (EPc : forall a, fPc st1 a = fPc st a).
+    { intros a. destruct (Z.eq_dec a root) as [->|Hne]; [congruence|]. unfold fPc. now rewrite Ho. }
+    assert (EVi : forall a, fVi st1 a = fVi st a).
+    { intros a. destruct (Z.eq_dec a root) as [->|Hne]; [congruence|]. unfold fVi. now rewrite Ho. }
+    assert (ER : forall a, a <> root -> fR st1 a = fR st a).
+    { intros a Hne. unfold fR. now rewrite Ho. }
+    assert (ED1 : forall a, disc st a -> disc st1 a).
+    { intros a Hd. assert (a <> root) by (intros ->; eapply white_not_disc; eauto).
+      unfold disc in *. now rewrite EP, ER. }
+    assert (EB : forall a b, banc st a b -> banc st1 a b).
+    { apply banc_mono. intros a p. now rewrite EP. }
+    constructor.
+    - intros a y. destruct (Z.eq_dec a root) as [->|Hne]; auto.
+      unfold fNb. rewrite Ho by auto. apply (g_nb _ HG).
+    - intros a. destruct (Z.eq_dec a root) as [->|Hne]; auto.
+      unfold fNb. rewrite Ho by auto. apply (g_nb_nd _ HG).
+    - intros a Haw. rewrite EVi, ECh, EPc, EPp. apply (g_white _ HG).
+      destruct (Z.eq_dec a root) as [->|Hne]; auto.
+      unfold white in *. now rewrite <- EP, <- ER.
+    - intros a b. rewrite EVi. intros H. apply (g_vi_disc _ HG) in H as [H1 H2]. auto.
+    - intros a p. rewrite EP. intros H. apply ED1. apply (g_par_disc _ HG) in H; auto.
+    - intros a b. rewrite EVi, EP, EPc. apply (g_vi _ HG).
+    - intros a b. rewrite EPc, EPp. apply (g_pc_pp _ HG).
+    - intros a p. rewrite ECh, EP. apply (g_ch _ HG).
+    - intros a p. rewrite EP, EVi. apply (g_par_vi _ HG).
+    - intros a. rewrite ECh. apply (g_nd_ch _ HG).
+    - intros a. rewrite EPp. apply (g_nd_pp _ HG).
+    - intros a. rewrite EPc. apply (g_nd_pc _ HG).
+    - intros a b. rewrite EPc, EVi. apply (g_pc_vi _ HG).
+    - intros a b. rewrite EPp. intros H. apply EB. apply (g_pp_anc _ HG); auto.
+    - destruct (g_ranked _ HG) as [d Hd]. exists d. intros a p. rewrite EP. apply Hd.
+    - intros a p. rewrite EP, EPp. apply (g_par_pp _ HG).
+    - intros a Ha. destruct (Z.eq_dec a root) as [->|Hne]; auto.
+      rewrite ER in Ha by auto. rewrite EP. apply (g_root _ HG); auto.
+  Qed.
+  Lemma done_mono st st' a :
+    (forall b, incl (fVi st b) (fVi st' b)) -> done st a -> done st' a.
+  Proof.
+    intros H Hd y Hy. destruct (Hd y Hy) as [H1|H1]; [left|right]; eapply H; eauto.
+  Qed.
+
+  (* ---------- the _propagate loop of node x, token = path root .. parent of x ---------- *)
+  Section Loop.
+    Variables (x : Z) (token : list Z) (st0 : bstate) (E : Z -> Z -> Prop) (px : option Z).
+
+    Record LI (st : bstate) (ns : list Z) : Prop := {
+      li_G : G st;
+      li_black : forall a, disc st a -> ~ In a (token ++ [x]) -> done st a;
+      li_anc : forall y, In y token -> banc st y x;
+      li_gray : forall n, In n token -> In n (nb x) -> In n (fPp st x) \/ In n (fVi st x);
+      li_disc_x : disc st x;
+      li_tok_disc : forall y, In y token -> disc st y;
+      li_unsent : forall n, In n ns -> ~ In x (fVi st n);
+      li_sent : forall y, In y (nb x) -> ~ In y ns -> In y (fVi st x) \/ In x (fVi st y);
+      li_ns_nd : NoDup ns;
+      li_ns_nb : incl ns (nb x);
+      li_mono : mono st0 st;
+      li_fr : FR E st0 st;
+      li_px : fP st x = px
+    }.
+
+    Hypothesis Hwx0 : white st0 x.
+
+    Lemma LI_skip st n ns : LI st (n :: ns) -> In n (fVi st x) -> LI st ns.
+    Proof.
+      intros L Hv. destruct L. constructor; auto.
+      - intros m Hm. apply li_unsent0. now right.
+      - intros y Hy Hns. destruct (Z.eq_dec y n) as [->|Hne]; auto.
+        apply li_sent0; auto. intros [H|H]; auto.
+      - now inversion li_ns_nd0.
+      - intros y Hy. apply li_ns_nb0. now right.
+    Qed.
+
+    (* one step of the loop: x passes the token to n and gets the state st2 back *)
+    Lemma LI_step st n ns st2 : LI st (n :: ns) ->
+      G st2 -> mono st st2 -> FR (fun a b => a = x /\ b = n) st st2 ->
+      (forall a, disc st2 a -> ~ In a (token ++ [x]) -> done st2 a) ->
+      In x (fVi st2 n) ->
+      LI st2 ns.
+    Proof.
+      intros L HG2 Hm Hfr Hbl Hxn. destruct L.
+      assert (Hnd : ~ In n ns /\ NoDup ns) by (inversion li_ns_nd0; auto).
+      destruct Hnd as [Hnn Hnd].
+      constructor; auto.
+      - intros y Hy. eapply banc_mono; [apply mono_parent; exact Hm|]. auto.
+      - intros m Hm1 Hm2. destruct Hm as [Hm3 Hm4]. destruct (Hm3 x li_disc_x0) as [_ [_ Epp]].
+        rewrite Epp. destruct (li_gray0 m Hm1 Hm2); auto. right. apply (Hm4 x). auto.
+      - eapply mono_disc; eauto.
+      - intros y Hy. eapply mono_disc; eauto.
+      - intros m Hm1 Hin. destruct (Hfr _ _ Hin) as [H|[H|[_ H]]].
+        + apply (li_unsent0 m); auto. now right.
+        + eapply white_not_disc; eauto.
+        + subst m. contradiction.
+      - intros y Hy Hns. destruct (Z.eq_dec y n) as [->|Hne]; auto.
+        destruct (li_sent0 y Hy) as [H|H].
+        + intros [H|H]; auto.
+        + left. apply (proj2 Hm x). auto.
+        + right. apply (proj2 Hm y). auto.
+      - intros y Hy. apply li_ns_nb0. now right.
+      - eapply mono_trans; eauto.
+      - intros a b Hin. destruct (Hfr _ _ Hin) as [H|[H|[H _]]].
+        + apply li_fr0; auto.
+        + right; left. eapply mono_white; eauto.
+        + subst a. auto.
+      - destruct Hm as [Hm3 _]. destruct (Hm3 x li_disc_x0) as [Ep _]. congruence.
+    Qed.
+  End Loop.
+  Hypothesis nb_vars : forall x y, In y (nb x) -> In y vars.
+
+  (* contract of handle_token on a white node x that s has just appended to its children *)
+  Definition Dspec (f : nat) : Prop := forall st s x token,
+    G st -> (forall a, disc st a -> ~ In a token -> done st a) ->
+    (forall y, In y token -> y = s \/ banc st y s) -> In s token ->
+    (forall y, In y token -> disc st y) -> white st x -> In x (nb s) ->
+    NoDup token -> incl token vars -> (List.length vars + 2 <= f + List.length token)%nat ->
+    exists st', handle f (setb st s (add_child (getb st s) x)) (Some s) x token = Some st' /\
+      G st' /\ (forall a, disc st' a -> ~ In a token -> done st' a) /\
+      mono st st' /\ FR (fun a b => a = s /\ b = x) st st' /\ fP st' x = Some s.
+
+  Section LoopOk.
+    Variables (f : nat) (x : Z) (token : list Z) (st0 : bstate) (E : Z -> Z -> Prop) (px : option Z).
+    Hypothesis HD : Dspec f.
+    Hypothesis Hwx0 : white st0 x.
+    Hypothesis Hnd : NoDup (token ++ [x]).
+    Hypothesis Hincl : incl (token ++ [x]) vars.
+    Hypothesis Hfuel : (List.length vars + 2 <= f + List.length (token ++ [x]))%nat.
+
+    Lemma loop_ok : forall ns st, LI x token st0 E px st ns ->
+      exists st', prop_loop (fun st n => handle f st (Some x) n (token ++ [x])) x ns st = Some st'
+                  /\ LI x token st0 E px st' [].
+    Proof.
+      induction ns as [|n ns IH]; intros st L.
+      - exists st. split; auto.
+      - simpl.
+        assert (Hnx : In n (nb x)) by (apply (li_ns_nb _ _ _ _ _ _ _ L); now left).
+        assert (Hne : n <> x) by (intros ->; eapply nb_irrefl; eauto).
+        pose proof (li_G _ _ _ _ _ _ _ L) as HG.
+        pose proof (li_disc_x _ _ _ _ _ _ _ L) as Hdx.
+        destruct (zmem n (b_visited (getb st x))) eqn:Ev.
+        + apply zmem_In in Ev. apply IH. eapply LI_skip; eauto.
+        + assert (Hnv : ~ In n (fVi st x)).
+          { intros H. apply zmem_In in H. unfold fVi in H. congruence. }
+          assert (Hxn : ~ In x (fVi st n)) by (apply (li_unsent _ _ _ _ _ _ _ L); now left).
+          destruct (zmem n (b_pps (getb st x))) eqn:Epp.
+          * (* n is a pseudo-parent of x *)
+            apply zmem_In in Epp.
+            assert (Hdn : disc st n).
+            { apply (g_pp_anc _ HG) in Epp. destruct (banc_has_child _ _ _ Epp) as [c Hc].
+              eapply g_par_disc; eauto. }
+            assert (Hch : ~ In x (fCh st n)).
+            { intros H. apply (g_ch _ HG) in H. eapply (g_par_pp _ HG); eauto. }
+            assert (Hf : exists f', f = S f').
+            { pose proof (NoDup_incl_length Hnd Hincl). destruct f; [lia|eauto]. }
+            destruct Hf as [f' ->]. rewrite handle_nondisc by auto.
+            apply IH. set (st2 := nondisc_state st x n).
+            assert (Ho : forall a, a <> n -> getb st2 a = getb st a)
+              by (intros; apply nondisc_state_other; auto).
+            assert (Hs : getb st2 n = add_pc (add_visited (getb st n) x) x)
+              by apply nondisc_state_same.
+            assert (Hvi : forall b, incl (fVi st b) (fVi st2 b)).
+            { intros b y Hy. unfold fVi in *. destruct (Z.eq_dec b n) as [->|Hb].
+              - rewrite Hs. simpl. apply in_app_iff; auto.
+              - rewrite Ho; auto. }
+            eapply LI_step; eauto.
+            -- exact (G_send_pc st st2 n x HG Hdn Hdx Epp Hxn Ho Hs).
+            -- split; auto. intros a _. unfold fP, fR, fPp.
+               destruct (Z.eq_dec a n) as [->|Ha]; [rewrite Hs|rewrite Ho by auto]; auto.
+            -- intros a b Hin. unfold fVi in *. destruct (Z.eq_dec b n) as [->|Hb].
+               ++ rewrite Hs in Hin. simpl in Hin. apply in_app_iff in Hin as [H|[<-|[]]]; auto.
+               ++ rewrite Ho in Hin; auto.
+            -- intros a Ha Hna. eapply done_mono; [exact Hvi|].
+               apply (li_black _ _ _ _ _ _ _ L); auto.
+               unfold disc, fP, fR in *.
+               destruct (Z.eq_dec a n) as [->|Ha']; [rewrite Hs in Ha|rewrite Ho in Ha by auto]; auto.
+            -- unfold fVi. rewrite Hs. simpl. apply in_app_iff. right. now left.
+          * (* n must be white: it becomes a child of x *)
+            assert (Hnpp : ~ In n (fPp st x)).
+            { intros H. apply zmem_In in H. unfold fPp in H. congruence. }
+            assert (Hwn : white st n).
+            { destruct (disc_or_white st n) as [Hdn|Hwn]; auto. exfalso.
+              destruct (in_dec Z.eq_dec n (token ++ [x])) as [Hin|Hnin].
+              - apply in_app_iff in Hin as [Hin|[Hin|[]]]; [|congruence].
+                destruct (li_gray _ _ _ _ _ _ _ L n Hin Hnx); contradiction.
+              - pose proof (li_black _ _ _ _ _ _ _ L n Hdn Hnin) as Hdone.
+                destruct (Hdone x (nb_sym _ _ Hnx)); contradiction. }
+            destruct (HD st x n (token ++ [x])) as [st' [He [HG' [Hbl' [Hm' [Hfr' Hp']]]]]]; auto.
+            -- apply (li_black _ _ _ _ _ _ _ L).
+            -- intros y Hy. apply in_app_iff in Hy as [Hy|[Hy|[]]]; auto.
+               right. apply (li_anc _ _ _ _ _ _ _ L); auto.
+            -- apply in_app_iff. right. now left.
+            -- intros y Hy. apply in_app_iff in Hy as [Hy|[Hy|[]]]; [|congruence].
+               apply (li_tok_disc _ _ _ _ _ _ _ L); auto.
+            -- rewrite He. apply IH. eapply LI_step; eauto.
+               apply (g_par_vi _ HG'); auto.
+    Qed.
+  End LoopOk.
+
+  Lemma D_all : forall f, Dspec f.
+  Proof.
+    induction f as [|f IHf]; intros st s x token HG Hbl Htok Hs Htd Hw Hxs Hnd Hincl Hfuel.
+    - exfalso. pose proof (NoDup_incl_length Hnd Hincl). simpl in Hfuel. lia.
+    - assert (Hds : disc st s) by auto.
+      assert (Hsx : s <> x) by (intros ->; eapply white_not_disc; eauto).
+      assert (Hxt : ~ In x token) by (intros H; eapply white_not_disc; eauto).
+      set (sta := setb st s (add_child (getb st s) x)).
+      assert (Ea : getb sta x = getb st x) by (unfold sta; rewrite getb_setb_other; auto).
+      assert (Hwa : white sta x) by (unfold white, fP, fR in *; rewrite Ea; auto).
+      rewrite handle_disc by exact Hwa.
+      set (st4 := disc_state sta s x token).
+      assert (Ho : forall a, a <> s -> a <> x -> getb st4 a = getb st a).
+      { intros a H1 H2. unfold st4. rewrite disc_state_other by auto.
+        unfold sta. now rewrite getb_setb_other. }
+      assert (Hss : getb st4 s = add_child (getb st s) x).
+      { unfold st4. rewrite disc_state_other by auto. unfold sta. now rewrite getb_setb_same. }
+      destruct (disc_state_same sta s x token) as [l [L1 [L2 L3]]]. fold st4 in L3.
+      rewrite Ea in L1, L2, L3.
+      destruct (g_white _ HG _ Hw) as [W1 [W2 [W3 W4]]]. destruct Hw as [Wp Wr].
+      unfold fVi, fCh, fPc, fPp, fP, fR in W1, W2, W3, W4, Wp, Wr.
+      rewrite W1, W2, W3, Wr in L3. simpl in L3.
+      assert (HNb : forall y, In y (fNb st4 x) <-> In y (nb x)).
+      { intros y. unfold fNb. rewrite L3. simpl. rewrite L1. apply (g_nb _ HG). }
+      assert (HNbnd : NoDup (fNb st4 x)).
+      { unfold fNb. rewrite L3. simpl. apply L2. apply (g_nb_nd _ HG). }
+      assert (HP : fP st4 x = Some s) by (unfold fP; rewrite L3; reflexivity).
+      assert (HVi : fVi st4 x = [s]) by (unfold fVi; rewrite L3; reflexivity).
+      assert (HPp : forall n, In n (fPp st4 x) <-> In n token /\ n <> s /\ In n (nb x)).
+      { intros n. unfold fPp. rewrite L3. simpl. rewrite filter_In, andb_true_iff, negb_true_iff.
+        rewrite zmem_In, Z.eqb_neq. pose proof (g_nb _ HG x n) as Hg. unfold fNb in Hg. tauto. }
+      assert (Hw : white st x) by (split; auto).
+      assert (HG4 : G st4).
+      { eapply (G_discover st st4 s x token); eauto.
+        - unfold fR. rewrite L3. reflexivity.
+        - unfold fCh. rewrite L3. reflexivity.
+        - unfold fPc. rewrite L3. reflexivity.
+        - unfold fPp. rewrite L3. simpl. apply NoDup_filter. apply (g_nb_nd _ HG). }
+      assert (EO : forall a, a <> x -> fP st4 a = fP st a /\ fR st4 a = fR st a /\
+                                      fPp st4 a = fPp st a /\ fVi st4 a = fVi st a).
+      { intros a Ha. unfold fP, fR, fPp, fVi.
+        destruct (Z.eq_dec a s) as [->|Has]; [rewrite Hss|rewrite Ho by auto]; auto. }
+      assert (Hvi : forall b, incl (fVi st b) (fVi st4 b)).
+      { intros b y Hy. destruct (Z.eq_dec b x) as [->|Hb].
+        - unfold fVi in Hy. rewrite W1 in Hy. destruct Hy.
+        - destruct (EO b Hb) as [_ [_ [_ E4]]]. now rewrite E4. }
+      assert (Hm4 : mono st st4).
+      { split; auto. intros a Ha.
+        assert (a <> x) by (intros ->; eapply white_not_disc; eauto).
+        destruct (EO a H) as [E1 [E2 [E3 _]]]. auto. }
+      assert (L : LI x token st (fun a b => a = s /\ b = x) (Some s) st4 (fNb st4 x)).
+      { constructor; auto.
+        - intros a Ha Hna. assert (Hax : a <> x) by (intros ->; apply Hna; apply in_app_iff; right; now left).
+          eapply done_mono; [exact Hvi|]. apply Hbl.
+          + destruct (EO a Hax) as [E1 [E2 _]]. unfold disc in *. now rewrite <- E1, <- E2.
+          + intros H. apply Hna. apply in_app_iff; auto.
+        - intros y Hy. destruct (Htok y Hy) as [->|Hb]; [now apply banc_parent|].
+          eapply banc_up; [exact HP|]. eapply banc_mono; [apply mono_parent; exact Hm4|]. exact Hb.
+        - intros n Hn Hnn. destruct (Z.eq_dec n s) as [->|Hns].
+          + right. rewrite HVi. now left.
+          + left. apply HPp. auto.
+        - left. congruence.
+        - intros y Hy. eapply mono_disc; eauto.
+        - intros n _ Hin. destruct (Z.eq_dec n x) as [->|Hn].
+          + rewrite HVi in Hin. destruct Hin as [H|[]]. congruence.
+          + destruct (EO n Hn) as [_ [_ [_ E4]]]. rewrite E4 in Hin.
+            apply (g_vi_disc _ HG) in Hin as [Hin _]. eapply white_not_disc; eauto.
+        - intros y Hy Hny. exfalso. apply Hny. now apply HNb.
+        - intros y Hy. now apply HNb.
+        - intros a b Hin. destruct (Z.eq_dec b x) as [->|Hb].
+          + rewrite HVi in Hin. destruct Hin as [<-|[]]. auto.
+          + destruct (EO b Hb) as [_ [_ [_ E4]]]. rewrite E4 in Hin. auto. }
+      assert (Hnd' : NoDup (token ++ [x])) by (apply NoDup_app_snoc; auto).
+      assert (Hincl' : incl (token ++ [x]) vars).
+      { intros y Hy. apply in_app_iff in Hy as [Hy|[<-|[]]]; auto. eapply nb_vars; eauto. }
+      assert (Hfuel' : (List.length vars + 2 <= f + List.length (token ++ [x]))%nat).
+      { rewrite app_length. simpl. lia. }
+      destruct (loop_ok f x token st _ (Some s) IHf Hw Hnd' Hincl' Hfuel' _ _ L) as [st' [He L']].
+      exists st'. unfold fNb in He. split; [exact He|].
+      split; [apply (li_G _ _ _ _ _ _ _ L')|]. split; [|split; [|split]].
+      + intros a Ha Hna. destruct (Z.eq_dec a x) as [->|Hax].
+        * intros y Hy. apply (li_sent _ _ _ _ _ _ _ L'); auto.
+        * apply (li_black _ _ _ _ _ _ _ L'); auto.
+          intros H. apply in_app_iff in H as [H|[H|[]]]; auto.
+      + apply (li_mono _ _ _ _ _ _ _ L').
+      + apply (li_fr _ _ _ _ _ _ _ L').
+      + apply (li_px _ _ _ _ _ _ _ L').
+  Qed.
+
+  (* contract of _generate_dfs_tree's call root.handle_token(None, []) *)
+  Lemma root_ok f st :
+    G st -> (forall a, white st a) -> In root vars -> (List.length vars + 1 <= f)%nat ->
+    exists st', handle (S f) st None root [] = Some st' /\
+      G st' /\ (forall a, disc st' a -> done st' a) /\ fR st' root = true.
+  Proof.
+    intros HG Hall Hrv Hfuel. rewrite handle_root.
+    set (st1 := root_state st root).
+    assert (Ho : forall a, a <> root -> getb st1 a = getb st a)
+      by (intros; apply root_state_other; auto).
+    destruct (root_state_same st root) as [l [L1 [L2 L3]]]. fold st1 in L3.
+    pose proof (Hall root) as Hw.
+    destruct (g_white _ HG _ Hw) as [W1 [W2 [W3 W4]]]. destruct (Hw) as [Wp Wr].
+    unfold fVi, fCh, fPc, fPp, fP, fR in W1, W2, W3, W4, Wp, Wr.
+    assert (HNb : forall y, In y (fNb st1 root) <-> In y (nb root)).
+    { intros y. unfold fNb. rewrite L3. simpl. rewrite L1. apply (g_nb _ HG). }
+    assert (HNbnd : NoDup (fNb st1 root)).
+    { unfold fNb. rewrite L3. simpl. apply L2. apply (g_nb_nd _ HG). }
+    assert (HG1 : G st1).
+    { apply (G_setroot st st1); auto; unfold fP, fR, fCh, fPc, fVi, fPp; rewrite L3; simpl; auto. }
+    assert (EO : forall a, fP st1 a = fP st a /\ fPp st1 a = fPp st a /\ fVi st1 a = fVi st a).
+    { intros a. unfold fP, fPp, fVi.
+      destruct (Z.eq_dec a root) as [->|Ha]; [rewrite L3|rewrite Ho by auto]; auto. }
+    assert (HR1 : fR st1 root = true) by (unfold fR; rewrite L3; reflexivity).
+    assert (Hnodisc : forall a, ~ disc st a) by (intros a; apply white_not_disc; auto).
+    assert (L : LI root [] st (fun _ _ => False) None st1 (fNb st1 root)).
+    { constructor; auto.
+      - intros a Ha Hna. exfalso. destruct (Z.eq_dec a root) as [->|Hne].
+        + apply Hna. now left.
+        + apply (Hnodisc a). unfold disc, fP, fR in *. now rewrite Ho in Ha.
+      - intros y [].
+      - intros n [].
+      - right. exact HR1.
+      - intros y [].
+      - intros n _ Hin. destruct (EO n) as [_ [_ E3]]. rewrite E3 in Hin.
+        apply (g_vi_disc _ HG) in Hin as [H _]. eapply Hnodisc; eauto.
+      - intros y Hy Hny. exfalso. apply Hny. now apply HNb.
+      - intros y Hy. now apply HNb.
+      - split.
+        + intros a Ha. exfalso. eapply Hnodisc; eauto.
+        + intros a. destruct (EO a) as [_ [_ E3]]. rewrite E3. intros y; auto.
+      - intros a b Hin. destruct (EO b) as [_ [_ E3]]. rewrite E3 in Hin. auto.
+      - destruct (EO root) as [E1 _]. rewrite E1. exact Wp. }
+    assert (Hnd' : NoDup ([] ++ [root])) by (simpl; constructor; [intros []|constructor]).
+    assert (Hincl' : incl ([] ++ [root]) vars) by (intros y [<-|[]]; auto).
+    assert (Hfuel' : (List.length vars + 2 <= f + List.length ([] ++ [root]))%nat) by (simpl; lia).
+    destruct (loop_ok f root [] st _ None (D_all f) Hw Hnd' Hincl' Hfuel' _ _ L) as [st' [He L']].
+    exists st'. unfold fNb in He. split; [exact He|].
+    pose proof (li_G _ _ _ _ _ _ _ L') as HG'.
+    split; [exact HG'|]. split.
+    - intros a Ha. destruct (Z.eq_dec a root) as [->|Hne].
+      + intros y Hy. apply (li_sent _ _ _ _ _ _ _ L'); auto.
+      + apply (li_black _ _ _ _ _ _ _ L'); auto. intros [H|[]]. congruence.
+    - destruct (li_disc_x _ _ _ _ _ _ _ L') as [H|H]; auto.
+      rewrite (li_px _ _ _ _ _ _ _ L') in H. congruence.
   Qed.
 End DFS.
